@@ -29,7 +29,7 @@ def shards(tier, seed, scale):
     return [{"n": per, "maxlen": 5 if tier == "quick" else 7} for _ in range(n)]
 
 
-NONTRIVIAL = {"flatten", "flatten-nested", "concat", "ellipsis", "diagonal", "squeeze", "broadcast", "permute", "bracket-in-flatten", "implicit-output", "broadcast-input", "multi-coord", "dot-nary", "keepdims", "number"}
+NONTRIVIAL = {"bracket-around-flatten", "flatten", "flatten-nested", "concat", "ellipsis", "diagonal", "squeeze", "broadcast", "permute", "bracket-in-flatten", "implicit-output", "broadcast-input", "multi-coord", "dot-nary", "keepdims", "number"}
 
 
 def risk_tags(case):
@@ -105,7 +105,7 @@ def run(spec, out):
 
     rng = random.Random(spec["seed"])
     nprng = np.random.default_rng(spec["seed"])
-    P = {"maxlen": spec["maxlen"]}
+    P = {"maxlen": spec["maxlen"], "br_flat_p": 0.08}
     from .. import exec as X
 
     for i in range(spec["n"]):
